@@ -252,7 +252,11 @@ def scn_grid_dataset(c, ci):
     mask = _mask_ds(c, sizes, names)
     f = fn(it, MOD, 'mask_grid_dataset')
     work = PathModel(OpaqueValue('work_dir'))
+    from pyvc.api import check_unmodified, snapshot
+    snap_ds, snap_mask = snapshot(ds), snapshot(mask)
     kind_, out = outcome(lambda: call(it, f, ds, mask, work))
+    check_unmodified(c, ds, snap_ds, 'the dataset being clipped')
+    check_unmodified(c, mask, snap_mask, 'the clip mask')
     if kind_ == 'raise':
         from pyvc.api import exc_matches
         c.check('the only error is ValueError for a mask that selects nothing', exc_matches(out, ValueError))
@@ -396,7 +400,10 @@ def scn_mesh_data(c, edges, fill='int_fill', si=1):
         enode = tables['edge_node'].val(e_old, bcol)
         c.assume(keepN(zint(enode)))                 # VALID-UGRID-MASK: the nodes of a kept edge are kept
     mask_before = {k: (v.arr, v.arr.fn, dict(v.attrs), dict(v.encoding)) for k, v in mask._vars.items()}
+    from pyvc.api import check_unmodified, snapshot
+    snap_ds = snapshot(ds)
     out = expect_ok(c, 'apply_clip_mask returns', lambda: method(it, conv, 'apply_clip_mask', mask, work))
+    check_unmodified(c, ds, snap_ds, 'the dataset being clipped')
     # frame: applying a mask does not change the mask (it is applied again to the next dataset with the same geometry)
     for mk_, (arr0, fn0, attrs0, enc0) in mask_before.items():
         mq = c.fresh_int('mq_' + mk_)
